@@ -28,7 +28,7 @@ class Query:
                  known=None, allow_bodyless=(), expect_covers=None, extra_cbmc=(), cxxflags=(), note='',
                  validate=True, unwindset=(), uf=(), new_cap=0):
         self.name = name; self.harness = harness; self.entry = entry; self.tus = tuple(tus)
-        self.defines = dict(defines or {}); self.unwind = unwind; self.stubs = tuple(stubs); self.stdmodel = stdmodel
+        self.defines = dict(defines or {}); self.unwind = unwind; self.stubs = tuple(stubs); self.stdmodel = tuple(stdmodel) if isinstance(stdmodel, (tuple, list)) else (('q',) if stdmodel else ())
         self.timeout = timeout; self.mem_gb = mem_gb; self.backends = tuple(backends); self.checks = checks
         self.bound = bound; self.silent_throw = silent_throw; self.renames = dict(renames or {})
         self.known = dict(known or {}); self.allow_bodyless = tuple(allow_bodyless)
@@ -105,7 +105,8 @@ class Pipeline:
 
     def incflags(self, stdmodel):
         f = ['-I' + os.path.join(VT, 'include')]
-        if stdmodel: f.append('-I' + os.path.join(VT, 'stdmodel'))
+        for mname in (stdmodel if isinstance(stdmodel, (tuple, list)) else (('q',) if stdmodel else ())):
+            f.append('-I' + os.path.join(VT, 'stdmodel', mname))
         f += ['-I' + os.path.join(REPO, 'src'), '-I' + self.inc, '-isystem', '/usr/include/eigen3']
         return f
 
